@@ -9,6 +9,7 @@ import (
 	"encoding/json"
 	"fmt"
 	"os"
+	"reflect"
 	"runtime/debug"
 	"strings"
 	"sync"
@@ -174,6 +175,24 @@ func SameBacking(a, b []byte) bool {
 		return false
 	}
 	return &a[:1][0] == &b[:1][0]
+}
+
+// OwnMethods returns the number of methods of interface *ifacePtr that are not methods of interface
+// *basePtr (pass typed nil pointers, e.g. (*SolicitProtocol)(nil), (*directive.Directive)(nil)).
+func OwnMethods(ifacePtr, basePtr any) int {
+	a := reflect.TypeOf(ifacePtr).Elem()
+	b := reflect.TypeOf(basePtr).Elem()
+	base := map[string]bool{}
+	for i := 0; i < b.NumMethod(); i++ {
+		base[b.Method(i).Name] = true
+	}
+	n := 0
+	for i := 0; i < a.NumMethod(); i++ {
+		if !base[a.Method(i).Name] {
+			n++
+		}
+	}
+	return n
 }
 
 // RunReplay runs the entry named in $VERIF_REPLAY and prints the outcome.
